@@ -47,6 +47,7 @@ GLOBAL_REWRITES = [
     ('R1b', r'\bT::one\(\)', 'N::one()', 'monomorphisation'),
     ('R7a', r'(?m)^\s*#\[(inline|allow\([^\]]*\)|must_use)\]\s*$', '', 'attribute dropped'),
     ('R12', r'\bfor _ in\b', 'for _it in', 'loop variable must be named'),
+    ('R14', r'(?m)^\s*use rust_decimal::[^;]*;\s*$', '', 'import used only by a cut (out-of-reach) branch'),
 ]
 
 FAIL_PATTERNS = [
@@ -118,10 +119,11 @@ def rewrite_body(body, unit, log):
             log.append(f"{rid} x{cnt} in {unit['id']} ({why})")
     if unit.get('cut_after'):
         marker, rep = unit['cut_after']
-        idxs = [m.start() for m in re.finditer(re.escape(marker), body)]
-        if len(idxs) != 1:
-            raise Undecided(f"unit {unit['id']}: cut marker {marker!r} matches {len(idxs)}x (lost anchor)")
-        cut = idxs[0] + len(marker)
+        mre = r'\s*'.join(re.escape(tok) for tok in marker.split())
+        ms = list(re.finditer(mre, body))
+        if len(ms) != 1:
+            raise Undecided(f"unit {unit['id']}: cut marker {marker!r} matches {len(ms)}x (lost anchor)")
+        cut = ms[0].end()
         dropped = body[cut:]
         body = body[:cut] + '\n' + rep + '\n'
         log.append(f"CUT in {unit['id']}: {len(dropped.strip().splitlines())} lines after `{marker}` dropped, replaced by `{rep.strip()}`")
@@ -243,6 +245,7 @@ def generate(template_path, repo, out_path):
         w = WIDTHS[width]
         t = re.sub(r'\bUW\b', w['UW'], t)
         t = re.sub(r'\bIW\b', w['IW'], t)
+        t = t.replace('UNITVAL', w['UNITVAL'])
         return t.replace('.W.', '.%s.' % width)
 
     for kind, val in parts:
@@ -255,6 +258,7 @@ def generate(template_path, repo, out_path):
             u = dict(val)
             u['id'] = wsub(u['id'])
             u['header'] = [wsub(h) for h in u['header']]
+            u['within'] = wsub(u['within'])
             item = extract.extract_fn(repo, u['file'], u['within'], u['fn'])
             if extract.norm(u['sig']) != item.sig_norm():
                 raise Undecided(f"unit {u['id']}: signature drift (lost anchor): repo has `{item.sig_norm()}`, contract written for `{extract.norm(u['sig'])}`")
@@ -364,7 +368,13 @@ def classify(res, meta):
                         pick = sp
             if pick is None and spans:
                 pick = spans[0]
-            ob = item_at(pick['line_start']) if pick else None
+            ob = None
+            for sp in spans:   # a span inside an extracted unit wins (trait-declared contracts report the trait line as primary)
+                for s0, e0, uid in uranges:
+                    if s0 <= sp['line_start'] <= e0:
+                        ob = uid
+            if ob is None:
+                ob = item_at(pick['line_start']) if pick else None
             if ob is None:
                 undecided.append(rendered)
             else:
